@@ -21,6 +21,10 @@ type Sys interface {
 	Nontrivial() bool
 }
 
+// Finalizer is an optional destructive end-of-state check, run once per distinct state after Key
+// and Nontrivial have been evaluated.
+type Finalizer interface{ Final() *vk.Violation }
+
 // BFSConfig drives an explicit-state breadth-first search. Live objects cannot be cloned, so the
 // successor of a state is produced by replaying its (shortest) path on a fresh instance + 1 op.
 type BFSConfig struct {
@@ -115,7 +119,19 @@ func BFS(cfg BFSConfig, rep *vk.Report) BFSResult {
 					continue
 				}
 				if seen.AddString(key) {
-					if s.Nontrivial() {
+					nt := s.Nontrivial()
+					if fz, ok := s.(Finalizer); ok {
+						var fv *vk.Violation
+						if p := vk.Recover(func() { fv = fz.Final() }); p != nil {
+							fv = &vk.Violation{Sig: "panic-final:" + opKind(cfg.OpName(op)), Msg: fmt.Sprintf("panic: %v", p)}
+						}
+						if fv != nil {
+							fv.Replay = map[string]any{"ops": names(&cfg, full)}
+							fv.Msg = fmt.Sprintf("after %v: %s", names(&cfg, full), fv.Msg)
+							rep.Violate(*fv)
+						}
+					}
+					if nt {
 						nontriv.Add(1)
 					}
 					mu.Lock()
